@@ -22,7 +22,7 @@ Ev(name) == l <= N /\ Rec[l].ev = name
 Adv == l' = l + 1
 
 CInit == l = 1 /\ appended = {} /\ handed = {} /\ dropEnded = FALSE /\ lateAppend = FALSE
-         /\ closed = FALSE /\ ivals = {} /\ nmany = 0 /\ TLCSet(1, 1)
+         /\ closed = FALSE /\ ivals = {} /\ nmany = 0 /\ TLCSet(1, 1) /\ TLCSet(2, "nothing consumed")
 
 CReset == Ev("Reset") /\ Adv /\ appended' = {} /\ handed' = {} /\ dropEnded' = FALSE
           /\ lateAppend' = FALSE /\ closed' = FALSE /\ ivals' = {} /\ nmany' = 0
